@@ -37,16 +37,16 @@ Fixpoint welem_toks (e : welem) : list tk :=
 Fixpoint wclass_spec (acc : N) (w : wclass) : item :=
   match w with
   | mkWC key name vs ws es =>
-      IClass acc (mkCD mods0 key name false false (existsb (fun f => f) vs) (existsb negb vs) (map (resolve (default_access key)) ws)
+      IClass acc (mkCD mods0 [key] name false false (existsb (fun f => f) vs) (existsb negb vs) (map (resolve (default_access [key])) ws)
                    ((fix go (a : N) (l : list welem) : list item :=
                        match l with
                        | [] => []
                        | WAccess kw :: r => go (kty kw) r
                        | WEmpty :: r => go a r
                        | WStmt _ it :: r => IC a it :: go a r
-                       | WFwd k nm :: r => IFwd a k nm :: go a r
+                       | WFwd k nm :: r => IFwd a [k] nm :: go a r
                        | WClass w' :: r => wclass_spec a w' :: go a r
-                       end) (default_access key) es)
+                       end) (default_access [key]) es)
                    FinNone)
   end.
 
@@ -56,14 +56,14 @@ Fixpoint welems_spec (a : N) (l : list welem) : list item :=
   | WAccess kw :: r => welems_spec (kty kw) r
   | WEmpty :: r => welems_spec a r
   | WStmt _ it :: r => IC a it :: welems_spec a r
-  | WFwd k nm :: r => IFwd a k nm :: welems_spec a r
+  | WFwd k nm :: r => IFwd a [k] nm :: welems_spec a r
   | WClass w' :: r => wclass_spec a w' :: welems_spec a r
   end.
 
 Lemma wclass_spec_eq acc key name vs ws es :
   wclass_spec acc (mkWC key name vs ws es)
-  = IClass acc (mkCD mods0 key name false false (existsb (fun f => f) vs) (existsb negb vs) (map (resolve (default_access key)) ws)
-                  (welems_spec (default_access key) es) FinNone).
+  = IClass acc (mkCD mods0 [key] name false false (existsb (fun f => f) vs) (existsb negb vs) (map (resolve (default_access [key])) ws)
+                  (welems_spec (default_access [key]) es) FinNone).
 Proof. reflexivity. Qed.
 
 Definition class_key (k : N) : Prop := k = T_class \/ k = T_struct \/ k = T_union.
@@ -99,10 +99,10 @@ Fixpoint ssize (l : list welem) : nat := match l with [] => O | x :: r => (esize
 Lemma class_head_written key name vs ws X :
   class_key key -> forallb access_ok ws = true -> (match vs with f :: _ => f = true | [] => True end) ->
   class_stmt_head false (ktok key :: mkTk T_NAME name :: vs_toks vs ++ bases_toks ws ++ ktok LBRACE :: X)
-  = CHDef mods0 key (Some name) (existsb (fun f => f) vs) (existsb negb vs) (map (resolve (default_access key)) ws) X.
+  = CHDef mods0 [key] (Some name) (existsb (fun f => f) vs) (existsb negb vs) (map (resolve (default_access [key])) ws) X.
 Proof.
   intros Hk Hws Hvs.
-  pose proof (class_head_roundtrip (default_access key) vs ws X Hws Hvs) as Hh. fold (bases_toks ws) in Hh.
+  pose proof (class_head_roundtrip (default_access [key]) vs ws X Hws Hvs) as Hh. fold (bases_toks ws) in Hh.
   set (Y := vs_toks vs ++ bases_toks ws ++ ktok LBRACE :: X) in *.
   assert (Hy : exists s r, Y = s :: r /\ (is T_DBL_COLON s || is T_LIT_60 s) = false /\ is_name_start s = false /\
                            is_ptr_ref_paren s = false /\ set_mod (kty s) mods0 = None /\ is SEMI s = false /\
@@ -112,8 +112,8 @@ Proof.
     - subst f. cbn [vs_toks map app]. eexists; eexists; (split; [reflexivity|]); repeat split; reflexivity. }
   destruct Hy as (s & r & EY & H1 & H2 & H3 & H4 & H5 & H6).
   unfold class_stmt_head.
-  assert (Hck : ckey_loop mods0 (ktok key :: mkTk T_NAME name :: Y) = Some (DOk (mods0, key, Some name, Y))).
-  { rewrite EY. destruct Hk as [E|[E|E]]; rewrite E; cbn [ckey_loop]; cbv beta; rewrite H1; reflexivity. }
+  assert (Hck : ckey_loop mods0 (ktok key :: mkTk T_NAME name :: Y) = Some (DOk (mods0, [key], Some name, Y))).
+  { rewrite EY. destruct Hk as [E|[E|E]]; rewrite E; cbn [ckey_loop]; unfold key_name; cbv beta; rewrite H1; reflexivity. }
   rewrite Hck.
   assert (Hsl : spec_loop mods0 (Some 0) Y = DOk (mods0, 0, Y)).
   { rewrite EY. cbn [spec_loop]. rewrite H2, H3, H4. reflexivity. }
@@ -125,60 +125,59 @@ Qed.
 
 Lemma class_fwd_written key name X :
   class_key key ->
-  class_stmt_head false (ktok key :: mkTk T_NAME name :: ktok SEMI :: X) = CHFwd mods0 key name X.
+  class_stmt_head false (ktok key :: mkTk T_NAME name :: ktok SEMI :: X) = CHFwd mods0 [key] name X.
 Proof. intros [E|[E|E]]; subst key; reflexivity. Qed.
 
 Lemma class_key_decl_head key : class_key key -> is_decl_head (ktok key).
 Proof. intros [E|[E|E]]; subst key; reflexivity. Qed.
 
 (* ------------------------------------------------------------------ *)
-(* one step of the loop at a token that goes to _parse_declarations, in a class body *)
+(* one step of the loop at a token that goes to _parse_declarations, in a class body: by what the class-statement head says *)
 
-Lemma body_decl_step k' n f dt cls dcls acc aid t r :
-  is_decl_head t ->
+Lemma body_step_stmt k' n f dt cls dcls acc aid t r :
+  is_decl_head t -> class_stmt_head false (t :: r) = CHNot ->
   body (S k') n f dt (Some (cls, dcls)) acc aid (t :: r)
-  = match class_stmt_head false (t :: r) with
-    | CHNot =>
-        match member_decl n f cls dcls (t :: r) with
+  = match member_decl n f cls dcls (t :: r) with
+    | DErr e => DErr e
+    | DOk (it, r') =>
+        match body k' n f dt (Some (cls, dcls)) acc aid r' with
+        | DOk (l, a, rr) => DOk (IC acc it :: l, a, rr)
         | DErr e => DErr e
-        | DOk (it, r') =>
-            match body k' n f dt (Some (cls, dcls)) acc aid r' with
-            | DOk (l, a, rr) => DOk (IC acc it :: l, a, rr)
-            | DErr e => DErr e
-            end
-        end
-    | CHErr e => DErr e
-    | CHFwd m key nm r1 =>
-        match body k' n f dt (Some (cls, dcls)) acc aid r1 with
-        | DOk (l, a, rr) => DOk (IFwd acc key nm :: l, a, rr)
-        | DErr e => DErr e
-        end
-    | CHDef m key nm fi ex bs r1 =>
-        let '(bn, anon, aid1) := match nm with Some x => (x, false, aid) | None => (anon_base + aid + 1, true, aid + 1) end in
-        let inner := match nm with Some x => (x, dtor_of dt x) | None => (anon_base, anon_base) end in
-        match body k' n f dt (Some inner) (default_access key) aid1 r1 with
-        | DErr e => DErr e
-        | DOk (members, aid2, r2) =>
-            match r2 with
-            | cb :: r3 =>
-                if is RBRACE cb then
-                  match finish_class n f true false anon (negb (key =? T_class)) m cls dcls bn (m_const m) (m_volatile m) r3 with
-                  | DErr e => DErr e
-                  | DOk (fin, r4) =>
-                      match body k' n f dt (Some (cls, dcls)) acc aid2 r4 with
-                      | DOk (l, a, rr) => DOk (IClass acc (mkCD m key bn anon false fi ex bs members fin) :: l, a, rr)
-                      | DErr e => DErr e
-                      end
-                  end
-                else DErr 3
-            | [] => DErr 4
-            end
         end
     end.
-Proof.
-  intros Hh. unfold is_decl_head in Hh. cbn [body]. rewrite Hh.
-  destruct (class_stmt_head false (t :: r)) as [|e|m key nm r1|m key nm fi ex bs r1]; try reflexivity.
-Qed.
+Proof. intros Hh Hc. unfold is_decl_head in Hh. cbn [body]. rewrite Hh, Hc. reflexivity. Qed.
+
+Lemma body_step_fwd k' n f dt cls dcls acc aid t r m key nm r1 :
+  is_decl_head t -> class_stmt_head false (t :: r) = CHFwd m key nm r1 ->
+  body (S k') n f dt (Some (cls, dcls)) acc aid (t :: r)
+  = match body k' n f dt (Some (cls, dcls)) acc aid r1 with
+    | DOk (l, a, rr) => DOk (IFwd acc key nm :: l, a, rr)
+    | DErr e => DErr e
+    end.
+Proof. intros Hh Hc. unfold is_decl_head in Hh. cbn [body]. rewrite Hh, Hc. reflexivity. Qed.
+
+Lemma body_step_class k' n f dt cls dcls acc aid t r m key name fi ex bs r1 :
+  is_decl_head t -> class_stmt_head false (t :: r) = CHDef m key (Some name) fi ex bs r1 ->
+  body (S k') n f dt (Some (cls, dcls)) acc aid (t :: r)
+  = match body k' n f dt (Some (name, dtor_of dt name)) (default_access key) aid r1 with
+    | DErr e => DErr e
+    | DOk (members, aid2, r2) =>
+        match r2 with
+        | cb :: r3 =>
+            if is RBRACE cb then
+              match finish_class n f true false false (negb (key_is T_class key)) m cls dcls name (m_const m) (m_volatile m) r3 with
+              | DErr e => DErr e
+              | DOk (fin, r4) =>
+                  match body k' n f dt (Some (cls, dcls)) acc aid2 r4 with
+                  | DOk (l, a, rr) => DOk (IClass acc (mkCD m key name false false fi ex bs members fin) :: l, a, rr)
+                  | DErr e => DErr e
+                  end
+              end
+            else DErr 3
+        | [] => DErr 4
+        end
+    end.
+Proof. intros Hh Hc. unfold is_decl_head in Hh. cbn [body]. rewrite Hh, Hc. reflexivity. Qed.
 
 Lemma body_nil k n f dt ctx acc aid : body (S k) n f dt ctx acc aid [] = DOk ([], aid, []).
 Proof. reflexivity. Qed.
@@ -196,7 +195,7 @@ Lemma body_class_step_ns k' n f dt aid t r m key name fi ex bs r1 :
         match r2 with
         | cb :: r3 =>
             if is RBRACE cb then
-              match finish_class n f false false false (negb (key =? T_class)) m anon_base anon_base name (m_const m) (m_volatile m) r3 with
+              match finish_class n f false false false (negb (key_is T_class key)) m anon_base anon_base name (m_const m) (m_volatile m) r3 with
               | DErr e => DErr e
               | DOk (fin, r4) =>
                   match body k' n f dt None 0 aid2 r4 with
@@ -242,12 +241,12 @@ Proof.
       destruct (Hdec TAIL) as [f1 H1].
       destruct (IH n dt q cls dcls acc aid stop rest Hk' Hq Hstop) as [f2 H2]. rewrite <- HeqTAIL in H2.
       exists (Nat.max f1 f2). intros f Hge.
-      change ((t :: r) ++ TAIL) with (t :: r ++ TAIL). rewrite (body_decl_step k' n f dt cls dcls acc aid t (r ++ TAIL) Hh).
-      change (t :: r ++ TAIL) with ((t :: r) ++ TAIL). rewrite Hnot. rewrite H1 by lia. rewrite H2 by lia. reflexivity.
+      change ((t :: r) ++ TAIL) with (t :: r ++ TAIL). rewrite (body_step_stmt k' n f dt cls dcls acc aid t (r ++ TAIL) Hh (Hnot TAIL)).
+      change (t :: r ++ TAIL) with ((t :: r) ++ TAIL). rewrite H1 by lia. rewrite H2 by lia. reflexivity.
     + destruct (IH n dt q cls dcls acc aid stop rest Hk' Hq Hstop) as [f2 H2]. rewrite <- HeqTAIL in H2.
       exists f2. intros f Hge. cbn [app].
-      rewrite (body_decl_step k' n f dt cls dcls acc aid _ _ (class_key_decl_head key He)).
-      rewrite (class_fwd_written key name TAIL He). rewrite H2 by lia. reflexivity.
+      rewrite (body_step_fwd k' n f dt cls dcls acc aid _ _ _ _ _ _ (class_key_decl_head key He) (class_fwd_written key name TAIL He)).
+      rewrite H2 by lia. reflexivity.
     + destruct He as (Hkey & Hws & Hvs & Hin).
       assert (Hin' : welems_ok n dt name (dtor_of dt name) es').
       { clear - Hin. induction es' as [|x r IHr]; [exact I|]. destruct Hin as [A B]. split; [exact A|now apply IHr]. }
@@ -256,17 +255,16 @@ Proof.
         { clear. induction es' as [|x r IHr]; [reflexivity|]. cbn [ssize]. now rewrite <- IHr. }
         cbn [esize] in Hk. rewrite E in Hk. lia. }
       assert (Hrb : stop_tok (ktok RBRACE)) by reflexivity.
-      destruct (IH n dt es' name (dtor_of dt name) (default_access key) aid (ktok RBRACE) (ktok SEMI :: TAIL) Hsz Hin' Hrb) as [f1 H1].
+      destruct (IH n dt es' name (dtor_of dt name) (default_access [key]) aid (ktok RBRACE) (ktok SEMI :: TAIL) Hsz Hin' Hrb) as [f1 H1].
       destruct (IH n dt q cls dcls acc aid stop rest Hk' Hq Hstop) as [f2 H2]. rewrite <- HeqTAIL in H2.
       exists (Nat.max f1 f2). intros f Hge.
       replace ((ktok key :: mkTk T_NAME name :: vs_toks vs ++ bases_toks ws ++ ktok LBRACE :: flat_map welem_toks es' ++ [ktok RBRACE; ktok SEMI]) ++ TAIL)
         with (ktok key :: mkTk T_NAME name :: vs_toks vs ++ bases_toks ws ++ ktok LBRACE :: (flat_map welem_toks es' ++ ktok RBRACE :: ktok SEMI :: TAIL)).
       2:{ cbn [app]. rewrite <- !app_assoc. cbn [app]. rewrite <- !app_assoc. reflexivity. }
-      rewrite (body_decl_step k' n f dt cls dcls acc aid _ _ (class_key_decl_head key Hkey)).
-      rewrite (class_head_written key name vs ws _ Hkey Hws Hvs). cbv zeta. cbn iota.
+      rewrite (body_step_class k' n f dt cls dcls acc aid _ _ _ _ _ _ _ _ _ (class_key_decl_head key Hkey) (class_head_written key name vs ws _ Hkey Hws Hvs)).
       rewrite H1 by lia. change (is RBRACE (ktok RBRACE)) with true. cbn iota.
       change (m_const mods0) with false. change (m_volatile mods0) with false.
-      rewrite (finish_semicolon n f true false (negb (key =? T_class)) mods0 cls dcls name false false (ktok SEMI) TAIL eq_refl).
+      rewrite (finish_semicolon n f true false (negb (key_is T_class [key])) mods0 cls dcls name false false (ktok SEMI) TAIL eq_refl).
       cbn [andb]. rewrite H2 by lia. rewrite wclass_spec_eq. reflexivity.
 Qed.
 
@@ -282,7 +280,7 @@ Proof.
   assert (E : (fix sum (l : list welem) : nat := match l with [] => O | x :: r => (esize x + sum r)%nat end) es = ssize es).
   { clear. induction es as [|x r IHr]; [reflexivity|]. cbn [ssize]. now rewrite <- IHr. }
   assert (Hrb : stop_tok (ktok RBRACE)) by reflexivity.
-  destruct (body_elems (S (S (S (ssize es)))) n dt es name (dtor_of dt name) (default_access key) 0 (ktok RBRACE) (ktok SEMI :: rest)
+  destruct (body_elems (S (S (S (ssize es)))) n dt es name (dtor_of dt name) (default_access [key]) 0 (ktok RBRACE) (ktok SEMI :: rest)
               ltac:(lia) Hin' Hrb) as [f1 H1].
   exists f1. intros f Hge. rewrite wclass_spec_eq.
   cbn [welem_toks esize]. rewrite E.
@@ -290,10 +288,10 @@ Proof.
     with (ktok key :: mkTk T_NAME name :: vs_toks vs ++ bases_toks ws ++ ktok LBRACE :: (flat_map welem_toks es ++ ktok RBRACE :: ktok SEMI :: rest)).
   2:{ cbn [app]. rewrite <- !app_assoc. cbn [app]. rewrite <- !app_assoc. reflexivity. }
   change (S (S (S (S (ssize es))))) with (S (S (S (S (ssize es))))).
-  rewrite (body_class_step_ns _ n f dt 0 _ _ mods0 key name _ _ _ _ (class_key_decl_head key Hkey) (class_head_written key name vs ws _ Hkey Hws Hvs)).
+  rewrite (body_class_step_ns _ n f dt 0 _ _ mods0 [key] name _ _ _ _ (class_key_decl_head key Hkey) (class_head_written key name vs ws _ Hkey Hws Hvs)).
   rewrite H1 by lia. change (is RBRACE (ktok RBRACE)) with true. cbn iota.
   change (m_const mods0) with false. change (m_volatile mods0) with false.
-  rewrite (finish_semicolon n f false false (negb (key =? T_class)) mods0 anon_base anon_base name false false (ktok SEMI) rest eq_refl).
+  rewrite (finish_semicolon n f false false (negb (key_is T_class [key])) mods0 anon_base anon_base name false false (ktok SEMI) rest eq_refl).
   cbn [andb].
   destruct rest as [|t r]; [rewrite body_nil; reflexivity|].
   rewrite (body_stop _ n f dt None 0 0 t r Hrest). reflexivity.
@@ -314,7 +312,10 @@ Proof.
     assert (Hck : is_class_key (ktok k) = false).
     { apply spec_kw_in in Hk1. unfold spec_kws in Hk1. cbn [In] in Hk1.
       repeat (destruct Hk1 as [<-|Hk1]; [reflexivity|]). contradiction. }
-    cbn [kw_toks map app ckey_loop]. rewrite Hck, N1, N2. cbn [kty ktok]. rewrite Em.
+    assert (Hen : is T_enum (ktok k) = false).
+    { apply spec_kw_in in Hk1. unfold spec_kws in Hk1. cbn [In] in Hk1.
+      repeat (destruct Hk1 as [<-|Hk1]; [reflexivity|]). contradiction. }
+    cbn [kw_toks map app ckey_loop]. rewrite Hck, Hen, N1, N2. cbn [kty ktok]. rewrite Em.
     change (map ktok q ++ nm_tok b :: X) with (kw_toks q ++ nm_tok b :: X).
     assert (Hnext : match kw_toks q ++ nm_tok b :: X with s :: _ => is T_STRING_LITERAL s = false | [] => True end).
     { destruct q as [|k2 q']; cbn [kw_toks map app].
@@ -351,13 +352,13 @@ Example nested_run :
       ktok T_class; mkTk T_NAME 6; ktok T_LIT_58; mkTk T_NAME 7; ktok LBRACE; mkTk T_NAME 9; mkTk T_NAME 2; ktok SEMI;
       ktok T_public; ktok COLONb; mkTk T_NAME 9; mkTk T_NAME 3; ktok SEMI; ktok RBRACE; ktok SEMI;
       mkTk T_NAME 8; mkTk T_NAME 4; ktok SEMI; ktok T_struct; mkTk T_NAME 10; ktok SEMI; ktok RBRACE; ktok SEMI])
-  = DOk ([IClass 0 (mkCD mods0 T_struct 5 false false false false []
+  = DOk ([IClass 0 (mkCD mods0 [T_struct] 5 false false false false []
             [IC T_public (CMembers mods0 [MField (Some 1) (TBase 8 false false) None None]);
-             IClass T_private (mkCD mods0 T_class 6 false false false false [mkBase T_private 7 false false]
+             IClass T_private (mkCD mods0 [T_class] 6 false false false false [mkBase T_private 7 false false]
                [IC T_private (CMembers mods0 [MField (Some 2) (TBase 9 false false) None None]);
                 IC T_public (CMembers mods0 [MField (Some 3) (TBase 9 false false) None None])] FinNone);
              IC T_private (CMembers mods0 [MField (Some 4) (TBase 8 false false) None None]);
-             IFwd T_private T_struct 10] FinNone)], 0, []).
+             IFwd T_private [T_struct] 10] FinNone)], 0, []).
 Proof. vm_compute. reflexivity. Qed.
 
 (* ------------------------------------------------------------------ *)
@@ -389,7 +390,7 @@ Fixpoint nelem_spec (e : nelem) : list item :=
   | NEmpty => []
   | NStmt _ it => [INs it]
   | NClassE w => [wclass_spec 0 w]
-  | NFwdE key name => [IFwd 0 key name]
+  | NFwdE key name => [IFwd 0 [key] name]
   | NNs names es => [INamespace false names (flat_map nelem_spec es)]
   | NExternB l es => [IExtern (kval l) (flat_map nelem_spec es)]
   end.
@@ -421,51 +422,27 @@ Lemma body_tail k n f dt ctx acc aid T : tail_ok T -> body (S k) n f dt ctx acc 
 Proof. destruct T as [|t r]; intros H; [apply body_nil|now apply body_stop]. Qed.
 
 (* one step at namespace scope, at a token that goes to _parse_declarations *)
-Lemma body_decl_step_ns k' n f dt aid t r :
-  is_decl_head t ->
+Lemma body_step_stmt_ns k' n f dt aid t r :
+  is_decl_head t -> class_stmt_head false (t :: r) = CHNot ->
   body (S k') n f dt None 0 aid (t :: r)
-  = match class_stmt_head false (t :: r) with
-    | CHNot =>
-        match ns_decl n f (t :: r) with
+  = match ns_decl n f (t :: r) with
+    | DErr e => DErr e
+    | DOk (it, r') =>
+        match body k' n f dt None 0 aid r' with
+        | DOk (l, a, rr) => DOk (INs it :: l, a, rr)
         | DErr e => DErr e
-        | DOk (it, r') =>
-            match body k' n f dt None 0 aid r' with
-            | DOk (l, a, rr) => DOk (INs it :: l, a, rr)
-            | DErr e => DErr e
-            end
-        end
-    | CHErr e => DErr e
-    | CHFwd m key nm r1 =>
-        match body k' n f dt None 0 aid r1 with
-        | DOk (l, a, rr) => DOk (IFwd 0 key nm :: l, a, rr)
-        | DErr e => DErr e
-        end
-    | CHDef m key nm fi ex bs r1 =>
-        let '(bn, anon, aid1) := match nm with Some x => (x, false, aid) | None => (anon_base + aid + 1, true, aid + 1) end in
-        let inner := match nm with Some x => (x, dtor_of dt x) | None => (anon_base, anon_base) end in
-        match body k' n f dt (Some inner) (default_access key) aid1 r1 with
-        | DErr e => DErr e
-        | DOk (members, aid2, r2) =>
-            match r2 with
-            | cb :: r3 =>
-                if is RBRACE cb then
-                  match finish_class n f false false anon (negb (key =? T_class)) m anon_base anon_base bn (m_const m) (m_volatile m) r3 with
-                  | DErr e => DErr e
-                  | DOk (fin, r4) =>
-                      match body k' n f dt None 0 aid2 r4 with
-                      | DOk (l, a, rr) => DOk (IClass 0 (mkCD m key bn anon false fi ex bs members fin) :: l, a, rr)
-                      | DErr e => DErr e
-                      end
-                  end
-                else DErr 3
-            | [] => DErr 4
-            end
         end
     end.
-Proof.
-  intros Hh. unfold is_decl_head in Hh. cbn [body]. rewrite Hh.
-  destruct (class_stmt_head false (t :: r)) as [|e|m key nm r1|m key nm fi ex bs r1]; reflexivity.
-Qed.
+Proof. intros Hh Hc. unfold is_decl_head in Hh. cbn [body]. rewrite Hh, Hc. reflexivity. Qed.
+
+Lemma body_step_fwd_ns k' n f dt aid t r m key nm r1 :
+  is_decl_head t -> class_stmt_head false (t :: r) = CHFwd m key nm r1 ->
+  body (S k') n f dt None 0 aid (t :: r)
+  = match body k' n f dt None 0 aid r1 with
+    | DOk (l, a, rr) => DOk (IFwd 0 key nm :: l, a, rr)
+    | DErr e => DErr e
+    end.
+Proof. intros Hh Hc. unfold is_decl_head in Hh. cbn [body]. rewrite Hh, Hc. reflexivity. Qed.
 
 (* a block opened at namespace scope *)
 Lemma body_ns_step k' n f dt aid names X :
@@ -542,8 +519,8 @@ Proof.
     + destruct He as [[(t & r & E & Hh) Hdec] Hnot]. subst toks.
       destruct (Hdec TAIL) as [f1 H1].
       exists (Nat.max f1 f2). intros f Hge.
-      change ((t :: r) ++ TAIL) with (t :: r ++ TAIL). rewrite (body_decl_step_ns k' n f dt aid t (r ++ TAIL) Hh).
-      change (t :: r ++ TAIL) with ((t :: r) ++ TAIL). rewrite Hnot. rewrite H1 by lia. rewrite H2 by lia. reflexivity.
+      change ((t :: r) ++ TAIL) with (t :: r ++ TAIL). rewrite (body_step_stmt_ns k' n f dt aid t (r ++ TAIL) Hh (Hnot TAIL)).
+      change (t :: r ++ TAIL) with ((t :: r) ++ TAIL). rewrite H1 by lia. rewrite H2 by lia. reflexivity.
     + destruct w as [key name vs ws es']. cbn [welem_ok] in He. destruct He as (Hkey & Hws & Hvs & Hin).
       assert (Hin' : welems_ok n dt name (dtor_of dt name) es').
       { clear - Hin. induction es' as [|x r IHr]; [exact I|]. destruct Hin as [A B]. split; [exact A|now apply IHr]. }
@@ -551,20 +528,19 @@ Proof.
       { clear. induction es' as [|x r IHr]; [reflexivity|]. cbn [ssize]. now rewrite <- IHr. }
       assert (Hsz : (ssize es' < k')%nat) by (cbn [nsize esize] in Hk; rewrite E in Hk; lia).
       assert (Hrb : stop_tok (ktok RBRACE)) by reflexivity.
-      destruct (body_elems k' n dt es' name (dtor_of dt name) (default_access key) aid (ktok RBRACE) (ktok SEMI :: TAIL) Hsz Hin' Hrb) as [f1 H1].
+      destruct (body_elems k' n dt es' name (dtor_of dt name) (default_access [key]) aid (ktok RBRACE) (ktok SEMI :: TAIL) Hsz Hin' Hrb) as [f1 H1].
       exists (Nat.max f1 f2). intros f Hge. cbn [welem_toks].
       replace ((ktok key :: mkTk T_NAME name :: vs_toks vs ++ bases_toks ws ++ ktok LBRACE :: flat_map welem_toks es' ++ [ktok RBRACE; ktok SEMI]) ++ TAIL)
         with (ktok key :: mkTk T_NAME name :: vs_toks vs ++ bases_toks ws ++ ktok LBRACE :: (flat_map welem_toks es' ++ ktok RBRACE :: ktok SEMI :: TAIL)).
       2:{ cbn [app]. rewrite <- !app_assoc. cbn [app]. rewrite <- !app_assoc. reflexivity. }
-      rewrite (body_decl_step_ns k' n f dt aid _ _ (class_key_decl_head key Hkey)).
-      rewrite (class_head_written key name vs ws _ Hkey Hws Hvs). cbv zeta. cbn iota.
+      rewrite (body_class_step_ns k' n f dt aid _ _ _ _ _ _ _ _ _ (class_key_decl_head key Hkey) (class_head_written key name vs ws _ Hkey Hws Hvs)).
       rewrite H1 by lia. change (is RBRACE (ktok RBRACE)) with true. cbn iota.
       change (m_const mods0) with false. change (m_volatile mods0) with false.
-      rewrite (finish_semicolon n f false false (negb (key =? T_class)) mods0 anon_base anon_base name false false (ktok SEMI) TAIL eq_refl).
+      rewrite (finish_semicolon n f false false (negb (key_is T_class [key])) mods0 anon_base anon_base name false false (ktok SEMI) TAIL eq_refl).
       cbn [andb]. rewrite H2 by lia. rewrite wclass_spec_eq. reflexivity.
     + exists f2. intros f Hge. cbn [app].
-      rewrite (body_decl_step_ns k' n f dt aid _ _ (class_key_decl_head key He)).
-      rewrite (class_fwd_written key name TAIL He). rewrite H2 by lia. reflexivity.
+      rewrite (body_step_fwd_ns k' n f dt aid _ _ _ _ _ _ (class_key_decl_head key He) (class_fwd_written key name TAIL He)).
+      rewrite H2 by lia. reflexivity.
     + apply nall_ok in He. cbn [nsize] in Hk. rewrite nsum_eq in Hk.
       assert (Hrb : tail_ok (ktok RBRACE :: TAIL)) by reflexivity.
       destruct (IH n dt es' aid (ktok RBRACE :: TAIL) ltac:(lia) He Hrb) as [f1 H1].
@@ -632,7 +608,7 @@ Example unit_run :
       ktok RBRACE; ktok SEMI; ktok RBRACE; ktok RBRACE; mkTk T_NAME 8; mkTk T_NAME 7; ktok SEMI])
   = DOk ([INamespace false [1; 2]
             [INs (NDecls mods0 [EVar 3 (TBase 8 false false) None]);
-             IExtern 4 [IClass 0 (mkCD mods0 T_struct 5 false false false false []
+             IExtern 4 [IClass 0 (mkCD mods0 [T_struct] 5 false false false false []
                                     [IC T_public (CMembers mods0 [MField (Some 6) (TBase 8 false false) None None])] FinNone)]];
           INs (NDecls mods0 [EVar 7 (TBase 8 false false) None])], 0, []).
 Proof. vm_compute. reflexivity. Qed.
